@@ -131,11 +131,22 @@ func op_acct[K comparable, V any](l *List[K, V]) bool {
 }
 
 // the sentinel carries the root flag, members do not; members of a policy region carry exactly the
-// region flag of their list (so different regions are disjoint)
+// region flag of their list (so different regions are disjoint). Policy lists only (footprint: flags and
+// the policy ghost state).
 func op_flags[K comparable, V any](l *List[K, V]) bool {
 	return sp_isRoot(l.root.flag.Flags) && all(func(x *Entry[K, V]) bool {
-		return imp(sp_in(l, x, l.listType), !sp_isRoot(x.flag.Flags) && imp(l.listType != WHEEL_LIST, x.flag.Flags&(2|4|64) == sp_regionBit(l.listType)))
+		return imp(gh_po_in(l, x), !sp_isRoot(x.flag.Flags) && x.flag.Flags&(2|4|64) == sp_regionBit(l.listType))
 	})
+}
+
+// the same for a timer-wheel slot list (no region flags; footprint: flags and the wheel ghost state)
+func op_wflags[K comparable, V any](l *List[K, V]) bool {
+	return sp_isRoot(l.root.flag.Flags) && all(func(x *Entry[K, V]) bool { return imp(gh_po_win(l, x), !sp_isRoot(x.flag.Flags)) })
+}
+
+// the flag predicate that applies to l
+func sp_flagsOf[K comparable, V any](l *List[K, V]) bool {
+	return imp(l.listType == WHEEL_LIST, op_wflags(l)) && imp(l.listType != WHEEL_LIST, op_flags(l))
 }
 
 // full invariant of a policy-region list
@@ -145,7 +156,7 @@ func sp_listInv[K comparable, V any](l *List[K, V]) bool {
 
 // invariant of a timer-wheel slot list (count and len are not maintained for these)
 func sp_wlistInv[K comparable, V any](l *List[K, V]) bool {
-	return l != nil && l.listType == WHEEL_LIST && sp_isRoot(l.root.flag.Flags) && op_wring(l) && op_flags(l)
+	return l != nil && l.listType == WHEEL_LIST && sp_isRoot(l.root.flag.Flags) && op_wring(l) && op_wflags(l)
 }
 
 // m is a different policy region than l
@@ -182,7 +193,7 @@ func sp_ghostOthersSame[K comparable, V any](l *List[K, V]) bool {
 //   - a policy list is indifferent to wheel-list operations and vice versa (different links and ghost state)
 func sp_othersKeep[K comparable, V any](l *List[K, V], e *Entry[K, V]) bool {
 	return all(func(m *List[K, V]) bool {
-		return imp(sp_otherRegion(l, m) && old(sp_listInv(m)) && old(op_flags(l)) && old(e == nil || e.flag.Flags&(2|4|64) == 0 || gh_po_in(l, e)),
+		return imp(sp_otherRegion(l, m) && old(sp_listInv(m)) && old(sp_flagsOf(l)) && old(e == nil || e.flag.Flags&(2|4|64) == 0 || gh_po_in(l, e)),
 			sp_listInv(m) && m.len == old(m.len) && m.count == old(m.count))
 	}) && all(func(m *List[K, V]) bool {
 		return imp(l.listType == WHEEL_LIST && m != l && old(sp_listInv(m)), sp_listInv(m) && m.len == old(m.len) && m.count == old(m.count))
@@ -196,12 +207,12 @@ func sp_othersKeep[K comparable, V any](l *List[K, V], e *Entry[K, V]) bool {
 // insert e after at
 func (l *List[K, V]) spec_insert(e, at *Entry[K, V]) {
 	touches(l.len, l.count)
-	reveal("op_ring", "op_wring", "op_acct", "op_flags")
+	reveal("op_ring", "op_wring", "op_acct", "op_flags", "op_wflags")
 	requires("inv", sp_ring(l))
 	requires("at", sp_node(l, at, l.listType))
 	// e is not a member yet: either directly, or because it carries no region flag while every member does
 	requires("e", e != nil && e != &l.root && !sp_isRoot(e.flag.Flags) &&
-		(!sp_in(l, e, l.listType) || (l.listType != WHEEL_LIST && e.flag.Flags&(2|4|64) == 0 && op_flags(l))))
+		(!sp_in(l, e, l.listType) || (l.listType != WHEEL_LIST && e.flag.Flags&(2|4|64) == 0 && sp_flagsOf(l))))
 	// ghost: e becomes a member, labelled strictly between at and its successor
 	if l.listType == WHEEL_LIST {
 		set(gh_po_win(l, e), true)
@@ -220,7 +231,7 @@ func (l *List[K, V]) spec_insert(e, at *Entry[K, V]) {
 	}))
 	ensures("ring", sp_ring(l))
 	ensures("acct", imp(old(op_acct(l)), op_acct(l)))
-	ensures("flags", imp(old(op_flags(l)) && !old(sp_isRoot(e.flag.Flags)) && (l.listType == WHEEL_LIST || old(e.flag.Flags&(2|4|64) == 0)), op_flags(l)))
+	ensures("flags", imp(old(sp_flagsOf(l)) && !old(sp_isRoot(e.flag.Flags)) && (l.listType == WHEEL_LIST || old(e.flag.Flags&(2|4|64) == 0)), sp_flagsOf(l)))
 	ensures("len", l.len == old(l.len)+e.policyWeight && l.count == old(l.count)+1)
 	ensures("flag", e.flag.Flags == old(e.flag.Flags)|sp_regionBit(l.listType))
 	ensures("flags_others", all(func(x *Entry[K, V]) bool { return imp(x != e, x.flag.Flags == old(x.flag.Flags)) }))
@@ -239,7 +250,7 @@ func (l *List[K, V]) spec_insert(e, at *Entry[K, V]) {
 // remove e from the list
 func (l *List[K, V]) spec_remove(e *Entry[K, V]) {
 	touches(l.len, l.count)
-	reveal("op_ring", "op_wring", "op_acct", "op_flags")
+	reveal("op_ring", "op_wring", "op_acct", "op_flags", "op_wflags")
 	requires("inv", sp_ring(l))
 	requires("member", sp_in(l, e, l.listType))
 	if l.listType == WHEEL_LIST {
@@ -255,7 +266,7 @@ func (l *List[K, V]) spec_remove(e *Entry[K, V]) {
 	}))
 	ensures("ring", sp_ring(l))
 	ensures("acct", imp(old(op_acct(l)), op_acct(l)))
-	ensures("flags", imp(old(op_flags(l)), op_flags(l)))
+	ensures("flags", imp(old(sp_flagsOf(l)), sp_flagsOf(l)))
 	ensures("len", l.len == old(l.len)-e.policyWeight && l.count == old(l.count)-1)
 	ensures("flag", e.flag.Flags == ifelse(l.listType == WHEEL_LIST, old(e.flag.Flags), old(e.flag.Flags)&^(2|4|64)))
 	ensures("flags_others", all(func(x *Entry[K, V]) bool { return imp(x != e, x.flag.Flags == old(x.flag.Flags)) }))
@@ -272,7 +283,7 @@ func (l *List[K, V]) spec_remove(e *Entry[K, V]) {
 
 // move e to just after at (e and at in l); members, sizes and flags are unchanged
 func (l *List[K, V]) spec_move(e, at *Entry[K, V]) {
-	reveal("op_ring", "op_wring", "op_acct", "op_flags")
+	reveal("op_ring", "op_wring", "op_acct", "op_flags", "op_wflags")
 	requires("inv", sp_ring(l))
 	requires("nodes", sp_in(l, e, l.listType) && sp_node(l, at, l.listType))
 	if e != at && old(sp_nx(at, l.listType)) != e {
@@ -292,7 +303,7 @@ func (l *List[K, V]) spec_move(e, at *Entry[K, V]) {
 	}))
 	ensures("ring", sp_ring(l))
 	ensures("acct", imp(old(op_acct(l)), op_acct(l)))
-	ensures("flags", imp(old(op_flags(l)), op_flags(l)))
+	ensures("flags", imp(old(sp_flagsOf(l)), sp_flagsOf(l)))
 	ensures("sizes", l.len == old(l.len) && l.count == old(l.count))
 	ensures("flags_same", all(func(x *Entry[K, V]) bool {
 		return x.flag.Flags == old(x.flag.Flags) && x.policyWeight == old(x.policyWeight)
@@ -306,7 +317,7 @@ func (l *List[K, V]) spec_move(e, at *Entry[K, V]) {
 
 // the element with the smallest label (most recently pushed to the front), nil iff empty
 func (l *List[K, V]) spec_Front() (r *Entry[K, V]) {
-	reveal("op_ring", "op_wring", "op_acct", "op_flags")
+	reveal("op_ring", "op_wring", "op_acct", "op_flags", "op_wflags")
 	requires("inv", sp_ring(l))
 	ensures("nil_iff_empty", (r == nil) == all(func(x *Entry[K, V]) bool { return !sp_in(l, x, l.listType) }))
 	ensures("first", imp(r != nil, sp_in(l, r, l.listType) && sp_pv(r, l.listType) == &l.root && all(func(y *Entry[K, V]) bool {
@@ -314,13 +325,13 @@ func (l *List[K, V]) spec_Front() (r *Entry[K, V]) {
 	})))
 	ensures("nonempty", imp(op_acct(l) && l.len != 0, r != nil))
 	ensures("count_pos", imp(op_acct(l), l.count >= 0 && imp(r != nil, l.count >= 1)))
-	ensures("not_root", imp(op_flags(l) && r != nil, !sp_isRoot(r.flag.Flags)))
+	ensures("not_root", imp(sp_flagsOf(l) && r != nil, !sp_isRoot(r.flag.Flags)))
 	return
 }
 
 // the element with the largest label (least recently used end), nil iff empty
 func (l *List[K, V]) spec_Back() (r *Entry[K, V]) {
-	reveal("op_ring", "op_wring", "op_acct", "op_flags")
+	reveal("op_ring", "op_wring", "op_acct", "op_flags", "op_wflags")
 	requires("inv", sp_ring(l))
 	ensures("nil_iff_empty", (r == nil) == all(func(x *Entry[K, V]) bool { return !sp_in(l, x, l.listType) }))
 	ensures("last", imp(r != nil, sp_in(l, r, l.listType) && sp_nx(r, l.listType) == &l.root && sp_pv(r, l.listType) != nil && all(func(y *Entry[K, V]) bool {
@@ -328,7 +339,7 @@ func (l *List[K, V]) spec_Back() (r *Entry[K, V]) {
 	})))
 	ensures("nonempty", imp(op_acct(l) && l.len != 0, r != nil))
 	ensures("count_pos", imp(op_acct(l), l.count >= 0 && imp(r != nil, l.count >= 1)))
-	ensures("not_root", imp(op_flags(l) && r != nil, !sp_isRoot(r.flag.Flags)))
+	ensures("not_root", imp(sp_flagsOf(l) && r != nil, !sp_isRoot(r.flag.Flags)))
 	return
 }
 
@@ -340,7 +351,7 @@ func (l *List[K, V]) spec_Len() (n int) {
 // remove and return the back element; nil iff the list is empty
 func (l *List[K, V]) spec_PopTail() (r *Entry[K, V]) {
 	touches(l.len, l.count)
-	reveal("op_ring", "op_wring", "op_acct", "op_flags")
+	reveal("op_ring", "op_wring", "op_acct", "op_flags", "op_wflags")
 	requires("inv", sp_ring(l))
 	if r != nil {
 		if l.listType == WHEEL_LIST {
@@ -361,8 +372,8 @@ func (l *List[K, V]) spec_PopTail() (r *Entry[K, V]) {
 	}))
 	ensures("ring", sp_ring(l))
 	ensures("acct", imp(old(op_acct(l)), op_acct(l)))
-	ensures("flags", imp(old(op_flags(l)), op_flags(l)))
-	ensures("not_root", imp(old(op_flags(l)) && r != nil, !sp_isRoot(r.flag.Flags)))
+	ensures("flags", imp(old(sp_flagsOf(l)), sp_flagsOf(l)))
+	ensures("not_root", imp(old(sp_flagsOf(l)) && r != nil, !sp_isRoot(r.flag.Flags)))
 	ensures("nonempty", imp(old(op_acct(l)) && old(l.len) != 0, r != nil))
 	ensures("count_pos", imp(old(op_acct(l)), old(l.count) >= 0 && imp(r != nil, old(l.count) >= 1)))
 	ensures("len", imp(r != nil, l.len == old(l.len)-r.policyWeight && l.count == old(l.count)-1) && imp(r == nil, l.len == old(l.len) && l.count == old(l.count)))
@@ -379,14 +390,14 @@ func (l *List[K, V]) spec_PopTail() (r *Entry[K, V]) {
 
 // a new, empty list
 func spec_NewList[K comparable, V any](size uint, listType uint8) (l *List[K, V]) {
-	reveal("op_ring", "op_wring", "op_acct", "op_flags")
+	reveal("op_ring", "op_wring", "op_acct", "op_flags", "op_wflags")
 	requires("type", sp_validType(listType))
 	setall(gh_po_in(l, nil), false)
 	setall(gh_po_win(l, nil), false)
 	ensures("fresh", l != nil && fresh(l))
 	ensures("empty", all(func(x *Entry[K, V]) bool { return !gh_po_in(l, x) && !gh_po_win(l, x) }) && l.len == 0 && l.count == 0 && l.capacity == size && l.listType == listType)
 	ensures("ring", sp_ring(l) && sp_isRoot(l.root.flag.Flags))
-	ensures("acct", imp(listType != WHEEL_LIST, op_acct(l)) && op_flags(l))
+	ensures("acct", imp(listType != WHEEL_LIST, op_acct(l)) && sp_flagsOf(l))
 	return
 }
 
